@@ -121,6 +121,15 @@ CHECKS = {
             'Trusted: VC generator, clang, z3/cvc5; geometric filters over the reals. Not covered: SAP broad phase, BVH mid phase, completeness '
             'of the whole pair enumeration.',
             'contracts (+ symmetry client lemmas), z3 QF_BV / LRA with quantified geometric soundness clauses'),
+    'C16': ('DESIGN.md section 4 / C16',
+            'Deductive proof of the selection logic of mj_ray (inductive loop invariant over all geoms, IEEE comparisons, per-geom distance a '
+            'ghost function): the result is -1 with geomid -1 exactly when no non-eliminated geom is hit, otherwise it is the distance of the '
+            'returned geom, that geom is hit and not eliminated, no hit geom is nearer, ties go to the lowest index, NaN distances are never '
+            'selected; ray_quad returns the smallest non-negative real root or -1 iff none exists; ray_sphere hit points lie on the sphere; '
+            'ray_eliminate applies the documented filter.',
+            'Trusted: VC generator, clang, z3/cvc5. Assumed: per-geom ray routines are pure functions of the geom index; ngeom < 2^27; '
+            'normal == NULL in mj_ray; quadratic/sphere over the reals. Not covered (listed): the other geom ray routines, mj_multiRay, BVH rays.',
+            'contracts + inductive loop invariant with ghost functions, z3 QF_FP/LIA+quantifiers, NRA'),
 }
 
 NA = {
